@@ -274,7 +274,9 @@ func runCase(c *vc.Ctx, cs Case, perCase time.Duration) (*caseResult, error) {
 }
 
 func coordinate(c *vc.Ctx, cases []Case) {
-	c.Level = "model_checking"
+	if c.Level == "exploration" {
+		c.Level = "model_checking" // C31 sets fault_enumeration itself
+	}
 	c.Reruns = 1
 	c.BatchSize = 1
 	if c.Replay != "" {
